@@ -247,3 +247,13 @@ def r5(ctx):
     for r in list(c12.r1(ctx)) + [x for x in c10.r4(ctx) if "insert" in x.key or "store" in x.key or x.status != "PASS"]:
         r.rule = "C19-R5"
         yield r
+
+
+import c11  # noqa: E402
+
+
+@M.rule("C19-R6", "header value lists hold every occurrence in arrival order, so `[0]` is the first occurrence (shared with C11-R3)")
+def r6(ctx):
+    for r in c11.r3(ctx):
+        r.rule = "C19-R6"
+        yield r
